@@ -614,7 +614,7 @@ func (s *sess) deliver(e *lp.Exec, fl uint32, hold bool) string {
 	if hold {
 		s.holdNext = true
 		s.injDone = make(chan bool, 1)
-		go func() { s.injDone <- vsys.InjectTimeout(s.epfd, evs, 10*time.Second) }()
+		go func() { s.injDone <- vsys.InjectTimeout(s.epfd, evs, 60*time.Second) }()
 		select {
 		case <-s.pollerHeld:
 			s.held = true
@@ -625,7 +625,7 @@ func (s *sess) deliver(e *lp.Exec, fl uint32, hold bool) string {
 				s.stuck(e, "poller did not finish the event batch")
 			}
 		}
-	} else if !vsys.InjectTimeout(s.epfd, evs, 10*time.Second) {
+	} else if !vsys.InjectTimeout(s.epfd, evs, 60*time.Second) {
 		s.stuck(e, "poller did not finish the event batch")
 	}
 	s.runDef(e)
@@ -693,7 +693,7 @@ func (s *sess) stepTask(e *lp.Exec) string {
 			t.state = "dec"
 		}
 		return d
-	case <-time.After(10 * time.Second):
+	case <-time.After(60 * time.Second):
 		s.stuck(e, "parked read task did not reach a pause point")
 		return "stuck"
 	}
